@@ -111,9 +111,11 @@ def dropComps (n : Nat) (bs : Bytes) : Bytes × Bool :=
       else if includeCurDir bs then (dropBody n rest, true)
       else (dropBody (n+1) bs, true)
 
-/-- `strip_path`: `components.next()` × `n`, then `components.as_path()` -/
+/-- `strip_path`: `components.next()` × `n`, `skip_cur_dir`, then `components.as_path()` -/
 def stripPath (n : Nat) (raw : Bytes) : Bytes :=
   let (rest, inBody) := dropComps n raw
+  -- `skip_cur_dir`: a leading `.` component that is still there is consumed as well
+  let (rest, inBody) := if !inBody && includeCurDir rest then (rest.tail, true) else (rest, inBody)
   let rest := if inBody then trimLeft (rest.length + 1) rest else rest
   let keep := if inBody then 0 else
     match rest with
